@@ -123,6 +123,9 @@ func (f *FnEnc) modSet(blocks map[*ssa.BasicBlock]bool) (map[*ssa.Alloc]bool, ma
 		}
 	}()
 	all := func() {
+		if os.Getenv("GOVC_DEBUG_REL") != "" {
+			fmt.Fprintf(os.Stderr, "modSet(%s): a callee without known frame makes the loop havoc everything\n", f.name)
+		}
 		for _, n := range f.e.reg.compOrd {
 			comps[n] = true
 		}
@@ -197,11 +200,16 @@ func (f *FnEnc) modSet(blocks map[*ssa.BasicBlock]bool) (map[*ssa.Alloc]bool, ma
 				comps[hc] = true
 			case *ssa.Call:
 				f.callModComps(&x.Call, comps, cells, all)
-			case *ssa.Go, *ssa.Defer:
-				all()
+			case *ssa.Go:
+				// the spawned body is verified on its own; its effects are not attributed to the spawner
+			case *ssa.Defer:
+				f.callModComps(&x.Call, comps, cells, all)
 			case *ssa.Send:
-				for _, g := range f.e.cs.Ghost {
-					comps[g.Comp] = true
+				if ct := f.e.cs.ByName["chan.send"]; ct != nil && !ct.Pure {
+					for _, n := range f.e.compsMatching(ct.Modifies) {
+						comps[n] = true
+						f.lastFullMods[n] = true
+					}
 				}
 			}
 		}
@@ -238,6 +246,16 @@ func (f *FnEnc) addTypeComps(t types.Type, comps map[string]bool) {
 
 func (f *FnEnc) addStoreComps(addr ssa.Value, comps map[string]bool) {
 	switch x := addr.(type) {
+	case *ssa.Alloc:
+		if x.Heap {
+			f.addTypeComps(x.Type().(*types.Pointer).Elem(), comps)
+		}
+		return
+	case *ssa.FreeVar:
+		if pt, ok := x.Type().Underlying().(*types.Pointer); ok {
+			f.addTypeComps(pt.Elem(), comps)
+			return
+		}
 	case *ssa.FieldAddr:
 		st := x.X.Type().Underlying().(*types.Pointer).Elem()
 		si := f.e.reg.structInfo(st)
